@@ -730,7 +730,7 @@ class World:
             svc.nconn += 1
             c = MailConn(self, svc, svc.nconn)
             svc.conn = c
-            c.srv.onOpen()
+            self._count_open(); c.srv.onOpen()
             self._rx_guard(c, lambda: c.cli.onOpen())
             waiters, svc.when = svc.when, []
             for d, _ in waiters:
@@ -749,7 +749,7 @@ class World:
         elif k == "mb.open":
             c = e[1]
             c.half_open = False
-            c.srv.onOpen()
+            self._count_open(); c.srv.onOpen()
             self._rx_guard(c, lambda: c.cli.onOpen())
         elif k == "mb.stopfin" and getattr(e[1], "half_open", False):
             # stopService() while the negotiation was in flight: Autobahn reports onClose without onOpen,
@@ -850,6 +850,14 @@ class World:
         elif k == "clock.due":
             self.clock.advance(0)
         self.net.links = [l for l in self.net.links if not l.dead()]
+
+    def _count_open(self):
+        """the operator reconfigures the server (`--signal-error`) after `late_welcome[0]` connections:
+        every later connection is greeted with an error welcome"""
+        self.opens = getattr(self, "opens", 0) + 1
+        lw = getattr(self, "late_welcome", None)
+        if lw is not None and self.opens > lw[0]:
+            self.server._welcome["error"] = lw[1]
 
     def _srv_rx(self, c, payload):
         if self.c2s_filter is not None:
